@@ -54,7 +54,7 @@ func (e *Engine) ftypeMembers() map[*ssa.Function]*Contract {
 						continue
 					}
 					nt, ok := ct.Type().(*types.Named)
-					if !ok {
+					if !ok || nt.Obj().Pkg() == nil {
 						continue
 					}
 					if c := e.specs.FTypes[nt.Obj().Pkg().Path()+"::"+nt.Obj().Name()]; c != nil {
@@ -113,6 +113,8 @@ func main() {
 		cmdUnit(eng, os.Args[2:])
 	case "check":
 		os.Exit(cmdCheck(eng, os.Args[2:]))
+	case "sweep":
+		cmdSweep(eng, os.Args[2:])
 	default:
 		fmt.Fprintln(os.Stderr, "unknown command")
 		os.Exit(2)
@@ -177,6 +179,13 @@ func cmdUnit(eng *Engine, pats []string) {
 					fmt.Println("        " + strings.ReplaceAll(strings.TrimSpace(ob.Detail), "\n", "\n        "))
 				}
 			}
+			if pat := os.Getenv("GOVC_DUMPOB"); pat != "" {
+				for _, ob := range u.Script.obs {
+					if strings.Contains(ob.Name, pat) {
+						os.WriteFile("/tmp/govc_ob_"+sanitize(strings.ReplaceAll(ob.Name, "/", "_"))+".smt2", []byte(u.Script.render(ob)), 0o644)
+					}
+				}
+			}
 			if os.Getenv("GOVC_TIMES") != "" {
 				for _, ob := range u.Script.obs {
 					q := u.Script.render(ob)
@@ -202,4 +211,99 @@ func matchUnit(name, p string) bool {
 		return name == p[1:] || strings.HasSuffix(name, "."+p[1:])
 	}
 	return strings.Contains(name, p)
+}
+
+// cmdSweep: zero-annotation safety sweep: every function of the matching
+// packages is translated with the contract it has (or none) and its safety
+// obligations are reported. Exploratory tool, not a registered check.
+func cmdSweep(eng *Engine, pats []string) {
+	tmp, _ := os.MkdirTemp("", "govc")
+	defer os.RemoveAll(tmp)
+	cfg := &SolverCfg{TimeoutS: 5, TmpDir: tmp}
+	var units []*Unit
+	have := map[*ssa.Function]bool{}
+	for _, u := range eng.allUnits() {
+		have[u.Fn] = true
+	}
+	for _, p := range eng.prog.AllPackages() {
+		if !strings.HasPrefix(p.Pkg.Path(), modPath) {
+			continue
+		}
+		match := false
+		for _, pat := range pats {
+			if strings.Contains(p.Pkg.Path(), pat) {
+				match = true
+			}
+		}
+		if !match {
+			continue
+		}
+		var fns []*ssa.Function
+		for _, m := range p.Members {
+			switch m := m.(type) {
+			case *ssa.Function:
+				fns = append(fns, m)
+			case *ssa.Type:
+				for _, recv := range []types.Type{m.Type(), types.NewPointer(m.Type())} {
+					ms := eng.prog.MethodSets.MethodSet(recv)
+					for i := 0; i < ms.Len(); i++ {
+						if f := eng.prog.MethodValue(ms.At(i)); f != nil && f.Synthetic == "" {
+							fns = append(fns, f)
+						}
+					}
+				}
+			}
+		}
+		seen := map[*ssa.Function]bool{}
+		for _, f := range fns {
+			if seen[f] || f.Blocks == nil || f.Name() == "init" {
+				continue
+			}
+			seen[f] = true
+			u := eng.newUnit(f)
+			units = append(units, u)
+		}
+	}
+	sort.Slice(units, func(i, j int) bool { return units[i].Name < units[j].Name })
+	var wg sync.WaitGroup
+	sem := make(chan struct{}, 16)
+	for _, u := range units {
+		wg.Add(1)
+		sem <- struct{}{}
+		go func(u *Unit) {
+			defer wg.Done()
+			defer func() { <-sem }()
+			eng.translate(u)
+			if u.Unsupp == "" && u.SpecFail == "" {
+				solveUnitNoPortfolio(u, cfg)
+			}
+		}(u)
+	}
+	wg.Wait()
+	for _, u := range units {
+		status := "ok"
+		var fails []string
+		if u.Unsupp != "" {
+			status = "UNSUPPORTED: " + u.Unsupp
+		} else if u.SpecFail != "" {
+			status = "SPEC: " + u.SpecFail
+		} else {
+			for _, ob := range u.Script.obs {
+				if !ob.Cover && ob.Result != "unsat" {
+					fails = append(fails, fmt.Sprintf("%s(%s) [%s] %s", ob.Name[len(u.Name):], ob.Result, ob.Pos, ob.Goal))
+				}
+			}
+			if len(fails) > 0 {
+				status = fmt.Sprintf("%d open", len(fails))
+			}
+		}
+		n := 0
+		if u.Script != nil {
+			n = len(u.Script.obs)
+		}
+		fmt.Printf("%-70s %4d obs  %s\n", u.Name, n, status)
+		for _, f := range fails {
+			fmt.Printf("      %s\n", f)
+		}
+	}
 }
